@@ -526,6 +526,14 @@ func formatValue(v interface{}) string {
 		return joinInterfaceSlice(v)
 	case []uint64:
 		return joinUint64Slice(v)
+	case []int64:
+		// the executor normalises TopN's ids to []int64; "%v" would print
+		// them separated by spaces, which does not parse on the remote node.
+		other := make([]string, len(v))
+		for i := range v {
+			other[i] = strconv.FormatInt(v[i], 10)
+		}
+		return "[" + strings.Join(other, ",") + "]"
 	case time.Time:
 		return fmt.Sprintf("\"%s\"", v.Format(timeFormat))
 	case *Condition:
